@@ -65,7 +65,7 @@ TEXT_ATOMS = ["&amp;lt;", "&amp;#60;", "&amp;amp;", "a", "b", "x", "y", "1", " "
               "&#xD800;", "&#x80;", "\x7f", " ", "/", "!",
               "\xc9;", "\xc9c", "&#x10FFFF;", "&#x110000;", "&#1114111", "&#xFFFF;",
               # references to characters that are white space to Unicode / Python but not to HTML
-              "&nbsp;", "&#160;", "&emsp;", "&#x2003;", "&#11;", "&#x1f;", "&#x2028;", "&thinsp;", "&#x3000;", "\x0b", "\x1c", "\u2003"]
+              "&nbsp;", "&#160;", "&emsp;", "&#x2003;", "&#11;", "&#x1f;", "&#x2028;", "&thinsp;", "&#x3000;", "\x0b", "\x1c", "\u2003", "&#13;", "a&#xD;b"]
 
 COMMENTS = ["<!--c-->", "<!---->", "<!-->", "<!--->", "<!--a--!>", "<!-- -- -->", "<!--a--", "<!--", "<!x>", "<!>", "<?pi?>", "<?",
             "</ x>", "</>", "<!--<!---->", "<!--a-b--c--->", "<!--\x00-->", "<!---\x00-->", "<!--a\r\nb-->", "<!-- <p> -->",
